@@ -162,6 +162,16 @@ def run_scenario(case, mode):
     conf = drive.roms_conf(d, d / "f.nc", S0, S0 + 3 * DT, DT, rows, tracker=tracker, subgrid=sg, extra_forcing=["temp", "w"], state=state,
                            outvars=("pid", "X", "Y", "Z", "temp"))
     facts = dict(left=0, n=len(rows))
+    if case["vertical"] == "off" and case["dir"] % 2 == 0:
+        # the vertical set-up given in the configuration (Vinfo) instead of being read from the grid file (same values)
+        conf["grid"]["Vinfo"] = dict(N=W.N, hc=5.0, theta_s=3.0, theta_b=0.4, Vstretching=1, Vtransform=1)
+    try:
+        # adversarial history: another Grid on the SAME file with a smaller subgrid was built earlier in this process
+        from ladim.ROMS import Grid as _Grid
+
+        _Grid(str(d / "f.nc"), subgrid=[1, 5, 1, 4])
+    except BaseException:
+        pass
     try:
         model = drive.make_model(conf, d)
         if case["kick"] != "none" or case["vertical"] != "off":
